@@ -87,7 +87,7 @@ def trig_sorted_chain_with_empty_operand(prog, leaves):
     separated from the downstream operations by the compound SELECT's extra query level, and the row-order-loss
     check fires inside process()."""
     def pruned_chain_below(n):
-        return any(m[0] == "chain" and (_statically_empty(m[1], leaves) != _statically_empty(m[2], leaves)) for m in walk(n))
+        return any(m[0] == "chain" and (_statically_empty(m[1], leaves) or _statically_empty(m[2], leaves)) for m in walk(n))
 
     for n in walk(prog):
         if n[0] in ("chain", "join", "mat"):
